@@ -89,6 +89,39 @@ CHECKS = {
             "Faults strike at environment-call boundaries only. Excluded by definition: a fault instead of the restoring "
             "tcsetattr itself. read_tty combinations documented to wait forever are not enumerated. Single faults only.",
             "DESIGN.md 3/C13"),
+    "C04": ("exploration",
+            "exhaustive product-grid enumeration with an exact rational oracle + explicit-state BFS for the history clause",
+            "Every tuple of (family BlockImage/KittyImage x terminal x cell size or cell ratio incl. auto modes x source "
+            "size x frame size x mode FIT/AUTO/ORIGINAL/FIT_TO_WIDTH/width=k/height=k/manual x API "
+            "set_size/size=/width=/height=/constructor/dynamic rendered_size) is executed on the real sizing code against "
+            "a virtual tty and judged by the property stated in exact rational arithmetic; the history clause by "
+            "explicit-state BFS to the fixpoint over size setting, resize, cell change, set_cell_ratio and render, plus "
+            "all unmerged histories to depth 2/3; UrwidImage.rows() against the rendered canvas.",
+            "Bounds in the evidence file; AUTO within half a pixel of the frame accepts either answer (counted); "
+            "undetermined cell size = 1x2; cell-size memo staleness left to C15.",
+            "DESIGN.md 3/C04"),
+    "C19": ("exploration",
+            "exhaustive enumeration of all strings up to a length bound against an independent recognizer",
+            "All strings up to length 5 (quick) / 6 (thorough) over the 24-character specifier alphabet, all '#'-strings "
+            "up to 8 / 9 characters over a 7-character alphabet, the full field-menu product and every single-character "
+            "edit, each through the real _check_format_spec of BlockImage, KittyImage and ITerm2Image, judged by an "
+            "independent recursive-descent recognizer/interpreter of the documented grammar (acceptance, error class, "
+            "interpretation, no class-state change); accepted product and short sentences additionally through format() "
+            "== explicit composition == draw(), ImageIterator and UrwidImage.",
+            "Reference written from formatting.rst and the class docstrings; '+' needs a non-empty style; height 0 = "
+            "full terminal height (as draw(pad_height=0)); the hex-colour field is reached only by the menu and '#' families.",
+            "DESIGN.md 3/C19"),
+    "C20": ("model_checking",
+            "explicit-state BFS to the fixpoint over set/unset histories on dynamically built class trees",
+            "For each program (KittyImage/ITerm2Image/BlockImage root x every subclass tree of <= 3 classes built with "
+            "type() x setting group x background of other settings), BFS to the fixpoint over set / unset / invalid / "
+            "instance-level operations on every class and instance; each transition is replayed on freshly reset classes "
+            "and the complete observable snapshot (all settings at all nodes, the library's sibling classes, the global "
+            "limit) is compared with an override-map reference; each state is rendered and the kitty/iterm2 framing and "
+            "payload decoded by the terminal model must follow the effective values and per-call overrides.",
+            "States deduplicated by the raw override attributes; class-wide render method read through the renderer's "
+            "own attribute lookup and confirmed by renders; mixed interleavings and unmerged histories to bounded depth.",
+            "DESIGN.md 3/C20, B.3"),
 }
 
 PENDING_REASON = "check not built yet in this round (design in DESIGN.md section 3); not claimed"
